@@ -65,6 +65,11 @@ class ModuleInfo(object):
             self.tree = ast.parse(self.src, filename=path)
         except SyntaxError as e:
             raise AnalysisError('cannot parse %s: %s' % (path, e))
+        self.inlined_calls = 0
+        if not external and not os.environ.get('VT_NO_NORMALIZE'):
+            # behaviour-preserving normalisation of the parsed tree (see normalize.py); positions are kept
+            from . import normalize
+            self.tree, self.inlined_calls = normalize.normalize_tree(self.tree)
         if external:
             self.relpath = 'site-packages/' + name.replace('.', '/') + '.py'
         else:
@@ -251,6 +256,9 @@ class Repo(object):
                 raise AnalysisError('third-party module %s not found' % name)
             m = ModuleInfo(self, name, path, external=True)
         self._mods[name] = m
+        if not m.external and not os.environ.get('VT_NO_NORMALIZE'):
+            from . import normalize
+            normalize.kw_to_pos(m, self)
         return m
 
     def try_mod(self, name):
